@@ -7,7 +7,7 @@ def B(nc):
 
 
 def mat(fn, funcs, nc, tier, extra="", **kw):
-    return Group("mat/%s_%dc" % (fn, nc), "lib_matrix.c", tus=LIB, model=MODEL, defines=["FN_" + fn, "NC=%d" % nc], dfcc=False, unwind=22, kind="bounded",
+    return Group("mat/%s_%dc" % (fn, nc), "lib_matrix.c", tus=LIB, model=MODEL, mem_gb=(4 if nc < 3 else 8), defines=["FN_" + fn, "NC=%d" % nc], dfcc=False, unwind=22, kind="bounded",
                  bound=B(nc) + extra, timeout=1500, tier=tier, functions=funcs, props=["C06", "C07", "C17"], **kw)
 
 
